@@ -149,6 +149,25 @@ pub fn short_l1_rb_edge_image() -> ImageSet {
     from_specs("G9w-short-l1-rb-edge", "shortl1-rbedge", vec![s])
 }
 
+/// G9 (64 clusters per refcount block): 57 data clusters, then two compressed clusters whose
+/// packed streams occupy host clusters 63 and 64, i.e. straddle the boundary between the ranges
+/// of refcount block 0 and 1
+pub fn compressed_rb_straddle_image() -> ImageSet {
+    let g = crate::images::G9;
+    let mut s = ImageSpec::new(g.cluster_bits, g.order, g.vsize());
+    let ncl = s.guest_clusters();
+    s.kinds = vec![GKind::Unalloc; ncl];
+    for c in 0..57 {
+        s.kinds[c] = GKind::Data;
+    }
+    s.kinds[57] = GKind::Compressed;
+    s.kinds[58] = GKind::Compressed;
+    s.comp_pad = (g.cs() - 8) as usize;
+    s.reftable_clusters = 1;
+    s.min_file_clusters = 66; // two refcount blocks
+    from_specs("G9-compressed-rb-straddle", "compressed", vec![s])
+}
+
 /// the header lists 128 L1 entries (two L1 clusters, both in use) although the virtual size needs 192:
 /// the table cannot grow in place, and its two old clusters are the lowest free ones afterwards
 pub fn short_l1_two_image() -> ImageSet {
@@ -176,6 +195,7 @@ pub fn find_extra_image(name: &str) -> Option<ImageSet> {
         "G9w-short-l1" => Some(short_l1_image()),
         "G9w-short-l1-two" => Some(short_l1_two_image()),
         "G9w-short-l1-odd" => Some(short_l1_odd_image()),
+        "G9-compressed-rb-straddle" => Some(compressed_rb_straddle_image()),
         "G9w-short-l1-rb-edge" => Some(short_l1_rb_edge_image()),
         _ => None,
     }
